@@ -1,7 +1,7 @@
 //! C18: the real `HealthCheckWrapper` (built through its public builder) over a scripted checker.
 //!
 //! Not caller-based. Header: `health n=<resources> sth=<success_threshold> fth=<failure_threshold>
-//! iv=<interval ms> to=<check timeout ms> delay=<initial delay ms> strat=<first|rr|prefer|last|oob|none|second>
+//! iv=<interval ms> to=<check timeout ms> delay=<initial delay ms> strat=<first|rr|prefer|random|last|oob|none|second>
 //! dflt=<item>`. Each resource has a queue of scripted check results (`manual script r=<i> seq=h,d3,u,k,s`):
 //! letter = result (healthy / degraded / unhealthy / unknown / s = never completes), digits = latency in
 //! virtual ms counted from the call of `check()`; an empty queue yields `dflt`.
@@ -19,6 +19,9 @@
 //! closure through the `Selector` trait, extensions).
 //! Every completion is also reported as an observed choice `@o=<serial>` on the op line: the order of completions
 //! that fall on one instant is the scheduler's.
+//! `strat=random` (`SelectionStrategy::Random`, cargo feature `random` of the crate, on in this build): the result of
+//! every `get_healthy` / `get_usable` is reported as the observed choice `@pick=<resource>|none`; the model accepts
+//! exactly the eligible resources.
 use crate::world::*;
 use std::collections::VecDeque;
 use std::future::Future;
@@ -154,12 +157,15 @@ pub struct Adapter {
     config: Option<HealthCheckConfig>,
     scripts: Arc<Mutex<Scripts>>,
     n: usize,
+    /// `SelectionStrategy::Random`: the result of a selection is the environment's choice, reported as `@pick=`
+    random: bool,
 }
 
 fn strategy(name: &str) -> SelectionStrategy {
     match name {
         "rr" => SelectionStrategy::RoundRobin,
         "prefer" => SelectionStrategy::PreferHealthy,
+        "random" => SelectionStrategy::Random,
         // custom selectors (the first one is the crate's own test selector)
         "last" => SelectionStrategy::Custom(Arc::new(|st: &[HealthStatus]| {
             st.iter().enumerate().filter(|(_, s)| s.is_healthy()).next_back().map(|(i, _)| i)
@@ -301,7 +307,8 @@ impl Adapter {
             let (w, c) = build(kv, n, Checker { scripts: scripts.clone() });
             (W::S(w), c)
         };
-        let a = Adapter { wrapper, config, scripts, n };
+        let random = kv.get("strat") == Some("random");
+        let a = Adapter { wrapper, config, scripts, n, random };
         if kv.u64("start", 1) != 0 && on_w!(a, w => now_or_pending(w.start())).is_none() {
             log("#start-pending".into());
         }
@@ -418,8 +425,17 @@ impl Mw for Adapter {
                 let txt: Vec<&str> = v.iter().map(|(_, s)| st_letter(*s)).collect();
                 log(format!("probe all = {}", if txt.is_empty() { "-".to_string() } else { txt.join(",") }));
             }
-            "get_healthy" => log(format!("probe get_healthy = {}", render(on_w!(self, w => now_or_pending(w.get_healthy()))))),
-            "get_usable" => log(format!("probe get_usable = {}", render(on_w!(self, w => now_or_pending(w.get_usable()))))),
+            "get_healthy" | "get_usable" => {
+                let res = if what == "get_healthy" {
+                    on_w!(self, w => now_or_pending(w.get_healthy()))
+                } else {
+                    on_w!(self, w => now_or_pending(w.get_usable()))
+                };
+                if self.random {
+                    obs("pick", render(res));
+                }
+                log(format!("probe {} = {}", what, render(res)));
+            }
             "config" => match &self.config {
                 // the getters of the stand-alone config value
                 Some(c) => log(format!(
